@@ -119,6 +119,9 @@ pub struct Config {
     /// that the server's TLS send buffer fills up
     #[serde(default)]
     stall_client: bool,
+    /// with two services on the thread, the second one is of the other TLS backend
+    #[serde(default)]
+    mixed: bool,
 }
 
 #[derive(Serialize, Deserialize, Clone, Debug, PartialEq)]
@@ -138,6 +141,8 @@ pub enum Action {
     #[serde(alias = "SrvWriteV")]
     SrvWriteV(usize, u32, u32),
     SrvFlush(usize),
+    /// shut the accepted stream down from the server side (close_notify behind everything written)
+    SrvShutdown(usize),
     SrvRead(usize),
     CliWrite(usize, u32),
     // connsim
@@ -234,6 +239,9 @@ struct Conn {
     flights: u32,
     /// the server's last write or flush on the stream returned Pending
     srv_blocked: bool,
+    /// the server has started / completed `poll_shutdown` on the stream
+    s_shutting: bool,
+    s_shut: bool,
 }
 
 fn payload(seed: u64, len: usize, salt: u64) -> Vec<u8> {
@@ -286,34 +294,38 @@ async fn run_accept(cfg: &Config, ch: &mut Chooser<Action>, ctx: &mut RunCtx) ->
     let start = tokio::time::Instant::now();
     let pk = pki();
     let timeout = Duration::from_millis(cfg.timeout_ms);
-    let svcs: Vec<Box<dyn ErasedSvc>> = match cfg.kind {
-        Kind::Rustls => {
-            let mut a = acc_rustls::Acceptor::new(server_config(&pk.leaf_der, &pk.leaf_key_der));
-            a.set_handshake_timeout(timeout);
-            let a = if cfg.use_clone { a.clone() } else { a };
-            (0..cfg.services)
-                .map(|_| {
-                    let s = futures_now(<acc_rustls::Acceptor as ServiceFactory<Half>>::new_service(&a, ()));
-                    Box::new(RSvc(s.unwrap())) as Box<dyn ErasedSvc>
-                })
-                .collect()
-        }
-        Kind::Openssl => {
-            use openssl::{pkey::PKey, ssl::{SslAcceptor, SslMethod}, x509::X509};
-            let mut b = SslAcceptor::mozilla_intermediate_v5(SslMethod::tls()).unwrap();
-            b.set_private_key(&PKey::private_key_from_der(&pk.leaf_key_der).unwrap()).unwrap();
-            b.set_certificate(&X509::from_der(&pk.leaf_der).unwrap()).unwrap();
-            let mut a = acc_openssl::Acceptor::new(b.build());
-            a.set_handshake_timeout(timeout);
-            let a = if cfg.use_clone { a.clone() } else { a };
-            (0..cfg.services)
-                .map(|_| {
-                    let s = futures_now(<acc_openssl::Acceptor as ServiceFactory<Half>>::new_service(&a, ()));
-                    Box::new(OSvc(s.unwrap())) as Box<dyn ErasedSvc>
-                })
-                .collect()
-        }
+    let other = |k: &Kind| if *k == Kind::Rustls { Kind::Openssl } else { Kind::Rustls };
+    let kinds: Vec<Kind> = (0..cfg.services).map(|i| if cfg.mixed && i == 1 { other(&cfg.kind) } else { cfg.kind.clone() }).collect();
+    let rustls_acceptor = {
+        let mut a = acc_rustls::Acceptor::new(server_config(&pk.leaf_der, &pk.leaf_key_der));
+        a.set_handshake_timeout(timeout);
+        if cfg.use_clone { a.clone() } else { a }
     };
+    let openssl_acceptor = {
+        use openssl::{pkey::PKey, ssl::{SslAcceptor, SslMethod}, x509::X509};
+        let mut b = SslAcceptor::mozilla_intermediate_v5(SslMethod::tls()).unwrap();
+        b.set_private_key(&PKey::private_key_from_der(&pk.leaf_key_der).unwrap()).unwrap();
+        b.set_certificate(&X509::from_der(&pk.leaf_der).unwrap()).unwrap();
+        let mut a = acc_openssl::Acceptor::new(b.build());
+        a.set_handshake_timeout(timeout);
+        if cfg.use_clone { a.clone() } else { a }
+    };
+    let svcs: Vec<Box<dyn ErasedSvc>> = kinds
+        .iter()
+        .map(|k| match k {
+            Kind::Rustls => {
+                let s = futures_now(<acc_rustls::Acceptor as ServiceFactory<Half>>::new_service(&rustls_acceptor, ()));
+                Box::new(RSvc(s.unwrap())) as Box<dyn ErasedSvc>
+            }
+            Kind::Openssl => {
+                let s = futures_now(<acc_openssl::Acceptor as ServiceFactory<Half>>::new_service(&openssl_acceptor, ()));
+                Box::new(OSvc(s.unwrap())) as Box<dyn ErasedSvc>
+            }
+        })
+        .collect();
+    if kinds.len() == 2 && kinds[0] != kinds[1] {
+        ctx.bump("probe.two_backends_on_one_thread");
+    }
     let ccfg = client_config(cfg.tls12 && cfg.kind == Kind::Rustls || cfg.tls12);
     let mut conns: Vec<Conn> = Vec::new();
     let mut ready_tasks: Vec<TaskWake> = (0..cfg.services).map(|_| TaskWake::new()).collect();
@@ -379,12 +391,20 @@ async fn run_accept(cfg: &Config, ch: &mut Chooser<Action>, ctx: &mut RunCtx) ->
                     en.push((Action::ClientSend(i, f), cfg.w_deliver));
                 }
             }
-            let stalled = cfg.stall_client && c.stream.is_some() && !c.srv_blocked && c.s_written < c.p_s2c.len();
+            let stalled = cfg.stall_client && c.stream.is_some() && !c.srv_blocked && !c.s_shutting && c.s_written < c.p_s2c.len();
             if !c.s2c.borrow().buf.is_empty() && !stalled {
                 en.push((Action::ClientRecv(i), cfg.w_deliver * 2));
             }
-            if c.stream.is_some() {
+            if c.stream.is_some() && c.s_shutting {
+                if !c.s_shut {
+                    en.push((Action::SrvShutdown(i), 3));
+                }
+            } else if c.stream.is_some() {
+                if c.s_written > 0 && !c.s_flushed {
+                    en.push((Action::SrvShutdown(i), 1));
+                }
                 if c.s_written < c.p_s2c.len() {
+                    en.push((Action::SrvWriteV(i, 0, 700), 1));
                     en.push((Action::SrvWrite(i, 700), 2));
                     en.push((Action::SrvWrite(i, 20000), 2));
                     en.push((Action::SrvWrite(i, 60000), 1));
@@ -456,7 +476,17 @@ async fn run_accept(cfg: &Config, ch: &mut Chooser<Action>, ctx: &mut RunCtx) ->
                     if c.stream.is_none() {
                         continue;
                     }
-                    if c.c_written < c.p_c2s.len() {
+                    if c.s_shutting && !c.s_shut {
+                        if c.s2c.borrow().buf.len() >= c.s2c.borrow().capacity {
+                            pick = Some(Action::ClientRecv(i));
+                        } else {
+                            pick = Some(Action::SrvShutdown(i));
+                        }
+                    } else if c.s_shut {
+                        if !c.s2c.borrow().buf.is_empty() {
+                            pick = Some(Action::ClientRecv(i));
+                        }
+                    } else if c.c_written < c.p_c2s.len() {
                         pick = Some(Action::CliWrite(i, 16000));
                     } else if !c.outbox.is_empty() {
                         pick = Some(Action::ClientSend(i, 0));
@@ -526,6 +556,8 @@ async fn run_accept(cfg: &Config, ch: &mut Chooser<Action>, ctx: &mut RunCtx) ->
                     out_tail: 0,
                     flights: 0,
                     srv_blocked: false,
+                    s_shutting: false,
+                    s_shut: false,
                 };
                 c.pump_client_out();
                 conns.push(c);
@@ -717,6 +749,18 @@ async fn run_accept(cfg: &Config, ch: &mut Chooser<Action>, ctx: &mut RunCtx) ->
                 let bufs = [std::io::IoSlice::new(&a), std::io::IoSlice::new(&b)];
                 match c.stream.as_mut().unwrap().as_mut().poll_write_vectored(&mut cx, &bufs) {
                     Poll::Ready(Ok(n)) => {
+                        if n == 0 && a.len() + b.len() > 0 {
+                            return Some(
+                                Violation::new(
+                                    "payload-stalled",
+                                    format!("stream {i}: a vectored write of slices of {} and {} bytes reported 0 bytes written (a write loop ends with WriteZero)", a.len(), b.len()),
+                                )
+                                .fact("acceptor", format!("{:?}", cfg.kind)),
+                            );
+                        }
+                        if a.is_empty() && !b.is_empty() {
+                            ctx.bump("probe.vectored_write_empty_first_slice");
+                        }
                         if n > a.len() + b.len() {
                             return Some(Violation::new("payload-corrupted", format!("stream {i}: a vectored write of {} bytes reported {n} bytes written", a.len() + b.len())));
                         }
@@ -737,6 +781,28 @@ async fn run_accept(cfg: &Config, ch: &mut Chooser<Action>, ctx: &mut RunCtx) ->
                         c.srv_blocked = true;
                         ctx.bump("probe.server_write_backpressure");
                         ev!(ctx, "server #{i} vectored write pending");
+                    }
+                }
+            }
+            Action::SrvShutdown(i) => {
+                let c = &mut conns[i];
+                let (_f, w) = c.io_task.fresh();
+                let mut cx = Context::from_waker(&w);
+                if !c.s_shutting && c.srv_blocked {
+                    ctx.bump("probe.shutdown_under_backpressure");
+                }
+                c.s_shutting = true;
+                match c.stream.as_mut().unwrap().as_mut().poll_shutdown(&mut cx) {
+                    Poll::Ready(Ok(())) => {
+                        c.s_shut = true;
+                        c.s_flushed = true;
+                        ctx.bump("probe.server_shutdown_completed");
+                        ev!(ctx, "server #{i} shut down after {} bytes", c.s_written);
+                    }
+                    Poll::Ready(Err(_)) => c.stream = None,
+                    Poll::Pending => {
+                        c.srv_blocked = true;
+                        ev!(ctx, "server #{i} shutdown pending");
                     }
                 }
             }
@@ -811,7 +877,17 @@ async fn run_accept(cfg: &Config, ch: &mut Chooser<Action>, ctx: &mut RunCtx) ->
             if c.c_read != c.p_s2c[..c.c_read.len().min(c.p_s2c.len())] || c.c_read.len() > c.p_s2c.len() {
                 return Some(Violation::new("payload-corrupted", format!("stream {i}: bytes read by the client differ from what the server wrote")));
             }
-            if c.s_flushed && c.c_read.len() < c.p_s2c.len() {
+            if c.s_shut && c.c_read.len() < c.s_written {
+                return Some(
+                    Violation::new(
+                        "payload-missing",
+                        format!("stream {i}: the server wrote {} bytes and completed the shutdown of the stream but only {} reached the client (transport capacity {})", c.s_written, c.c_read.len(), cfg.pipe_cap),
+                    )
+                    .fact("acceptor", format!("{:?}", cfg.kind))
+                    .fact("after", "shutdown"),
+                );
+            }
+            if c.s_flushed && !c.s_shut && c.c_read.len() < c.p_s2c.len() {
                 return Some(
                     Violation::new(
                         "payload-missing",
@@ -892,6 +968,7 @@ impl Engine for TlsSim {
             w_fault: *rng.pick(&[0, 0, 1, 2]),
             w_advance: *rng.pick(&[1, 2, 4]),
             stall_client: bulk,
+            mixed: rng.chance(1, 3),
         }
     }
     fn max_actions(_: &str, cfg: &Config) -> usize {
@@ -954,7 +1031,7 @@ impl Engine for TlsSim {
     }
     fn required_probes(prop: &str, _tier: Tier) -> Vec<&'static str> {
         if prop == "C18" {
-            vec!["probe.timeout_outcome", "probe.tls_error_outcome", "probe.stream_outcome", "probe.not_ready_at_limit", "probe.release_at_limit", "probe.payload_roundtrip", "probe.server_write_backpressure", "probe.server_vectored_write", "probe.server_vectored_write_partial", "probe.server_vectored_write_cut_in_second_slice"]
+            vec!["probe.timeout_outcome", "probe.tls_error_outcome", "probe.stream_outcome", "probe.not_ready_at_limit", "probe.release_at_limit", "probe.payload_roundtrip", "probe.server_write_backpressure", "probe.server_vectored_write", "probe.server_vectored_write_partial", "probe.server_vectored_write_cut_in_second_slice", "probe.two_backends_on_one_thread", "probe.server_shutdown_completed", "probe.shutdown_under_backpressure", "probe.vectored_write_empty_first_slice"]
         } else {
             connsim::required_probes()
         }
